@@ -78,6 +78,153 @@ func shortLen(thorough bool) int {
 	return 2
 }
 
+// ---------------------------------------------------------------- the byte alphabet of a position
+//
+// The strings above are written over ASCII (plus a few UTF-8 runes inside
+// whole values). This part makes the *octet* in one position of an otherwise
+// well-formed <digits><unit> string a dimension of its own: every single byte
+// 0x00..0xFF (NUL, the control bytes, blank, DEL, the obs-text bytes 0x80..0xFF
+// that HTTP lets through in field values) and a few multi-byte UTF-8 sequences a
+// user may type for a unit or a digit.
+
+var multiByteTokens = []string{
+	"\u00b5", // micro sign (C2 B5), the ISO-8859-1 byte 0xB5 is in the single bytes
+	"\u03bc", // Greek small mu (CE BC)
+	"\uff15", // full-width digit five (EF BC 95)
+	"\u0665", // Arabic-Indic digit five (D9 A5)
+	"\ufffd", // replacement character (EF BF BD)
+}
+
+// positionTokens: the 256 single bytes in order, then the multi-byte tokens.
+func positionTokens() []string {
+	out := make([]string, 0, 256+len(multiByteTokens))
+	for b := 0; b < 256; b++ {
+		out = append(out, string([]byte{byte(b)}))
+	}
+	return append(out, multiByteTokens...)
+}
+
+// tokenClass names the class of a token for fingerprints: which byte exactly
+// it was is not part of a finding's identity, which kind of byte is.
+func tokenClass(t string) string {
+	if len(t) != 1 {
+		return fmt.Sprintf("utf8:%+q", t)
+	}
+	switch b := t[0]; {
+	case b == 0:
+		return "NUL"
+	case b == '\t':
+		return "HT"
+	case b == '\n':
+		return "LF"
+	case b == '\r':
+		return "CR"
+	case b < 0x20:
+		return "ctl"
+	case b == ' ':
+		return "SP"
+	case b >= '0' && b <= '9':
+		return "digit"
+	case b >= 'A' && b <= 'Z':
+		return "upper"
+	case b >= 'a' && b <= 'z':
+		return "lower"
+	case b < 0x7f:
+		return "punct"
+	case b == 0x7f:
+		return "DEL"
+	case b < 0xc0:
+		return "0x80-0xBF"
+	case b < 0xf8:
+		return "0xC0-0xF7"
+	}
+	return "0xF8-0xFF"
+}
+
+// the digit strings in front of the unit position: none, 1-3 digits, the wire
+// format's 8, signed, and over-long ones (9 digits, the int64 boundary, 20
+// characters of which 19 are padding, 30 digits)
+var unitPosPrefixes = []string{"", "5", "10", "100", "00000005", "-5", "+5",
+	"100000000", "9223372036854775807", "9223372036854775808", "00000000000000000005", "100000000000000000000000000000"}
+
+// the digit strings in which every position is swept
+var (
+	digitPosShort = []string{"5", "10", "100"}
+	digitPosLong  = []string{"100000000", "9223372036854775807", "00000000000000000005"}
+)
+
+func valueClass(v string) string {
+	switch {
+	case v == "":
+		return "no-digits"
+	case v[0] == '-' || v[0] == '+':
+		return "signed"
+	case len(v) <= 3:
+		return "1-3digits"
+	case len(v) <= 8:
+		return "4-8digits"
+	}
+	return "over-long"
+}
+
+// byteGrammar returns the strings of this part in order (unit position first),
+// the class label of each (for fingerprints of strings that are not of the
+// valid form), and the set of those with the token in the unit position.
+func byteGrammar(thorough bool) (out []string, class map[string]string, unitPos map[string]bool) {
+	class, unitPos = map[string]string{}, map[string]bool{}
+	toks := positionTokens()
+	add := func(s, cl string, up bool) {
+		if _, ok := class[s]; !ok {
+			class[s] = cl
+			out = append(out, s)
+			if up {
+				unitPos[s] = true
+			}
+		}
+	}
+	for _, v := range unitPosPrefixes {
+		for _, t := range toks {
+			add(v+t, valueClass(v)+"+unit["+tokenClass(t)+"]", true)
+		}
+	}
+	sweep := func(v string, positions []int, us []string) {
+		for _, p := range positions {
+			for _, t := range toks {
+				for _, u := range us {
+					add(v[:p]+t+v[p+1:]+u, fmt.Sprintf("%s/digit[%s]/unit=%s", valueClass(v), tokenClass(t), u), false)
+				}
+			}
+		}
+	}
+	all := func(v string) []int {
+		var ps []int
+		for i := range v {
+			ps = append(ps, i)
+		}
+		return ps
+	}
+	for _, v := range digitPosShort {
+		sweep(v, all(v), units[:7]) // the 6 units and one letter that is none
+	}
+	for _, v := range digitPosLong {
+		if thorough {
+			sweep(v, all(v), []string{"S", "n", "x"})
+		} else {
+			sweep(v, []int{0, len(v) / 2, len(v) - 1}, []string{"S"})
+		}
+	}
+	return out, class, unitPos
+}
+
+func byteGrammarText(thorough bool) string {
+	t := fmt.Sprintf("byte alphabet of one position: %d tokens = every single byte 0x00..0xFF + the UTF-8 sequences %+q, (a) in the unit position after each of the %d digit strings %q, (b) in place of each digit of %q x suffixes %q",
+		256+len(multiByteTokens), multiByteTokens, len(unitPosPrefixes), unitPosPrefixes, digitPosShort, units[:7])
+	if thorough {
+		return t + fmt.Sprintf(", (c) in place of each digit of the over-long %q x suffixes {S, n, x}", digitPosLong)
+	}
+	return t + fmt.Sprintf(", (c) in place of the first, the middle and the last digit of the over-long %q with unit S", digitPosLong)
+}
+
 func serverGrammar(thorough bool) []string {
 	seen := map[string]bool{}
 	var out []string
@@ -105,8 +252,28 @@ func serverGrammar(thorough bool) []string {
 			}
 		}
 	}
+	// the byte alphabet last: a string that the older parts have already is
+	// theirs (and keeps its literal fingerprint)
+	bg, cls, up := byteGrammar(thorough)
+	byteClass, unitPosition = map[string]string{}, map[string]bool{}
+	for _, s := range bg {
+		if !seen[s] {
+			byteClass[s] = cls[s]
+		}
+		if up[s] {
+			unitPosition[s] = true
+		}
+		add(s)
+	}
 	return out
 }
+
+// filled by serverGrammar: the class label of every string that only the byte
+// alphabet part contributes; the strings with the swept token in the unit position
+var (
+	byteClass    map[string]string
+	unitPosition map[string]bool
+)
 
 func grammarText(thorough bool) string {
 	t := fmt.Sprintf("%d values {empty, 0, 1, 9, 10, leading zeros, 99999999, 100000000, int32/uint32/int64/uint64 boundaries, for each unit the largest value whose product fits int64 ns and the next one, 30 digits, negative, signed, spaces, 1.5, 0x10, 1e3, non-ASCII digits} x %d suffixes {H M S m u n, 6 non-units, none}; %d odd strings (doubled/misplaced units, control characters, 4096-character values); all strings of length 1..%d over %q",
@@ -114,7 +281,7 @@ func grammarText(thorough bool) string {
 	if thorough {
 		t += "; 10^k-1, 10^k (k=1..21) and 2^k-1, 2^k, 2^k+1 (k=1..65) x the 6 units"
 	}
-	return t
+	return t + "; " + byteGrammarText(thorough)
 }
 
 // ---------------------------------------------------------------- caller durations
